@@ -201,6 +201,19 @@ impl<'a> Visitor for DecVisitor<'a> {
             }
             let (vres, fbres) = match (&v, &fb) {
                 (Obs::Ret(a), Obs::Ret(b)) => (a, b),
+                (Obs::Ret(a), Obs::Panic(m)) => {
+                    // validate answered but from_bytes / walking the returned value panicked: the panic itself is C01's
+                    // business; for C02 the acceptance can still be judged, and a value that cannot be walked is not a
+                    // consistent view of what was checked
+                    if has("C02") {
+                        if a.is_ok() && !exp_ok {
+                            out.viol("C02", "accept", id, &format!("impl=Ok,spec=Err({})", cls), format!("spec rejects ({} at {}), validate accepts; the accessor walk then panicked: {}", exp["kind"], exp["pos"], m));
+                        } else if a.is_ok() {
+                            out.viol("C02", "inside", id, "accessor-panic", format!("validate accepts, walking the value through its accessors panicked: {}", m));
+                        }
+                    }
+                    continue;
+                }
                 _ => continue, // panics are C01's business; nothing else can be compared
             };
             if let Obs::Ret(m) = &fm {
@@ -408,11 +421,17 @@ impl<'a> Visitor for LayoutVisitor<'a> {
                 // the image is valid by the specification; whether the library accepts it is C02's question
                 Err(_) => unsafe { T::from_bytes_unchecked(pl.slice()) },
             };
-            (std::mem::align_of_val(x), std::mem::size_of_val(x), x.as_bytes().len(), x as *const T as *const u8 as usize - pl.lo(), x.probe(pl.lo()))
+            (std::mem::align_of_val(x), std::mem::size_of_val(x), x.as_bytes().len(), x as *const T as *const u8 as usize - pl.lo(), x.probe(pl.lo()), x.size())
         });
         match r {
             Obs::Panic(m) => out.viol("C04", "probe", id, "panic", m),
-            Obs::Ret((av, sv, ab, at, probe)) => {
+            Obs::Ret((av, sv, ab, at, probe, extent)) => {
+                // the computed extent of the probe value: end of the last field by the C rule, rounded to the alignment
+                if let Some(e) = case["extent"].as_u64() {
+                    if extent != e as usize {
+                        out.viol("C04", "extent", id, "size()", format!("size() = {} but the C layout puts the end of the value at {} (slice of {} bytes)", extent, e, l));
+                    }
+                }
                 if av != u("align") {
                     out.viol("C04", "align", id, "align_of_val", format!("align_of_val = {} reference {}", av, u("align")));
                 }
@@ -581,6 +600,27 @@ impl<'a> Visitor for EmpVisitor<'a> {
                             if *m >= 0 && pl.slice()[i] as i64 != *m {
                                 probs.push(("image", format!("byte {} is {} reference {}", i, pl.slice()[i], m)));
                                 break;
+                            }
+                        }
+                    }
+                    if has("C05") {
+                        out.count("judged.C05");
+                        if *size > l {
+                            out.viol("C05", "size-gt-slice", id, &format!("emplace.{}", rel), format!("size() = {} of a value constructed in {} bytes ({})", size, l, tag));
+                        } else {
+                            let p3 = eng.aux.place(*size, 0, 16, Place::End);
+                            p3.slice().copy_from_slice(&pl.slice()[..*size]);
+                            match guarded(|| T::from_bytes(p3.slice()).map(|y| (y.read(&mut Ctx::unbounded()), y.size()))) {
+                                Obs::Panic(m) => out.viol("C05", "remap", id, &format!("emplace.{}:panic", rel), m),
+                                Obs::Ret(Err(e)) => out.viol("C05", "remap", id, &format!("emplace.{}:rejected", rel), format!("first size()={} bytes of the constructed value rejected: {} ({})", size, err_json(&e), tag)),
+                                Obs::Ret(Ok((yv, ys))) => {
+                                    if let Some(d) = tree_diff(read, &yv, false, "").or_else(|| tree_diff(&yv, read, false, "")) {
+                                        out.viol("C05", "remap", id, &format!("emplace.{}:content", rel), d);
+                                    }
+                                    if ys != *size {
+                                        out.viol("C05", "remap", id, &format!("emplace.{}:size", rel), format!("size() {} after re-mapping {}", ys, size));
+                                    }
+                                }
                             }
                         }
                     }
